@@ -204,6 +204,21 @@ def run(run):
                     nlinks += 1
                 if bad:
                     run.violation(('bitmap',) + tuple(bad[0]), bad[1], {'kind': 'behaviour', 'behaviour': beh})
+        # two subsets whose bitmap operator sits at the same flat position with a bitmap of the same length - over different elements
+        res = fm94.gen_run(wd, 'MC_c07_swap', catalogue.catalogue(run.tier, seed())['swap'], compressions=(False,), subset_counts=(2,), fmax=2,
+                           seeds=((rot + 2) % 5,), slack=0, invariants=INVS, properties=('KthValueKthZero',))
+        if res.violated:
+            run.violation(('spec', res.violated, 'swap'), 'FM94 property %s violated' % res.violated, tlc.error_trace(res))
+        run.add_tlc(res, 'FM94 produce, replication counts swapped between the subsets')
+        behs = [b for b in res.iter_emitted() if not b['err']]
+        with mp.get_context('fork').Pool(14, initializer=fm94._init_worker) as pool:
+            out = [x for c in pool.map(_work, [behs[i:i + 30] for i in range(0, len(behs), 30)]) for x in c]
+        for beh, bad in zip(behs, out):
+            run.traces += 1
+            if any(e['link'] > 0 for s_ in beh['subsets'] for e in s_):
+                run.nontriv(fm94.structure_key(beh) + ('swap',))
+            if bad:
+                run.violation(('bitmap',) + tuple(bad[0]), bad[1], {'kind': 'behaviour', 'behaviour': beh})
         # an associated field belongs to the element it precedes - also where 204 is nested and after the INNER 204000, when one level
         # is still in force (FM94.NestedAssoc: pybufrkit's reading of what FM-94 leaves open; flat data and tree must agree on it)
         res = fm94.gen_run(wd, 'MC_c07_assoc2', catalogue.catalogue(run.tier, seed())['assoc2'], compressions=(False, True), subset_counts=(1, 2), fmax=2,
